@@ -225,6 +225,10 @@ def generate(rnd, tier):
                 f = gen_fault(rnd)
                 if f["kind"] == "interference" or f["kind"] in enabled:
                     op["faults"].append(f)
+            if rnd.random() < 0.12:
+                # the user interrupts the first computation on a fresh sample and keeps using the sample
+                op["faults"].append({"kind": "sample_query_interrupt", "at_line": rnd.randint(1, 14), "rep": rnd.choice(["*", 0]),
+                                     "exc": rnd.choice(["SimInterrupt", "MemoryError"])})
         ops.append(op)
     return {"np_seed": rnd.randrange(2**31), "objects": objects, "ops": ops}
 
@@ -543,6 +547,14 @@ def execute(scn, ctx):
                     viol.append({"invariant": "C11.source_unchanged", "detail": "source changed by a failing bootstrap_sample", "tags": tags})
                 break
             n_samples += 1
+            qi = next((f for f in plan if f["kind"] == "sample_query_interrupt"), None)
+            if qi is not None and isinstance(s, lib().Scores) and eff != "callable":
+                from ..ops import EXC
+                ok_, v_, n_, fired_ = ctx.tracer.run(lambda: (s.cm(np.array([0.0, 1.0])), s.nb_all_samples, s.fnr(0.5)),
+                                                     at=int(qi["at_line"]), exc=EXC.get(qi.get("exc"), EXC["SimInterrupt"]))
+                if fired_:
+                    faults["sample_query_interrupt"] = faults.get("sample_query_interrupt", 0) + 1
+                    fired_kinds.add("sample_query_interrupt")
             before = len(viol)
             check_sample(src, src_fp, cfg, eff, s, box["returned"] if box else None, viol, tags)
             if len(viol) > before:
@@ -653,7 +665,14 @@ def execute_stat(scn, ctx):
     tags = {"method": cfg["sampling_method"], "strat": cfg.get("stratified_sampling"), "smoothing": smoothing, "stat": True}
     viol = []
     for i in range(Mn):
-        s = src.bootstrap_sample(config)
+        try:
+            s = src.bootstrap_sample(config)
+        except Exception as e:  # noqa: BLE001 - a library failure is a finding, not a harness error
+            info = seam.end_op()
+            return {"violations": [{"invariant": "C11.sample_raises", "tags": tags,
+                                    "detail": f"bootstrap_sample raised {type(e).__name__}: {e} (distribution scenario, sample {i})"}],
+                    "trace": [["stat", tags, i, "raised"]], "stats": {"ops": i, "draws": info["draws"], "forced": 0, "faults": {}, "probes": {}},
+                    "signature": "stat-raised", "nontrivial": True, "states": []}
         if not smoothing:
             ip = np.searchsorted(up, s.pos)
             ineg = np.searchsorted(un, s.neg)
